@@ -23,7 +23,8 @@ ASSUMPTIONS = [
 NT_FLOOR = 0.3
 
 vals = G.finite_floats(lo_exp=-20, hi_exp=20).filter(lambda x: x != 0)
-relerr = st.one_of(st.floats(1e-6, 0.45), st.sampled_from([0.01, 0.1, 0.25]))
+relerr = st.one_of(st.floats(1e-6, 0.45), st.sampled_from([0.01, 0.1, 0.25]),
+                   st.integers(-13, -6).map(lambda e: 10.0 ** e), st.sampled_from([1e-9, 5e-10, 1e-8, 2e-8]))
 
 
 @st.composite
@@ -98,6 +99,16 @@ def qsum_case(draw):
     return {"kind": "qsum", "op": draw(st.sampled_from(["+", "-"])), "u": u, "v": w, "a": a, "b": b}
 
 
+@st.composite
+def qprod_case(draw):
+    dim = draw(st.sampled_from(G.DIMS))
+    u = draw(G.expr_of_dim(dim))
+    w = draw(G.expr_of_dim(dim if draw(st.booleans()) else draw(st.sampled_from(G.DIMS))))
+    a = draw(operand(allow_exact=False, positive=True, array=False))
+    b = draw(operand(positive=True, array=False))
+    return {"kind": "qprod", "op": draw(st.sampled_from(["*", "/"])), "u": u, "v": w, "a": a, "b": b}
+
+
 def strategies(tier):
     return {
         "magnitude_ops": (mag_case(), 2500, 60000),
@@ -106,6 +117,7 @@ def strategies(tier):
         "rele": (rele_case(), 300, 5000),
         "conversion": (conv_case(), 1200, 30000),
         "quantity_sum": (qsum_case(), 800, 20000),
+        "quantity_prod": (qprod_case(), 1000, 20000),
     }
 
 
@@ -259,7 +271,10 @@ def check_conv(case, v):
         return v.discard("float-range")
     a = case["a"]
     q = Quantity(_mk(a), tu)
-    # Quantity(x,u) folds a dimensionless compound: read the factor of what it reports
+    # Quantity(x,u) folds a dimensionless compound: the error must be folded with the same factor as the value
+    if not _eq(_np(q.abse()) * R.factor_of_expression(q.units()), _err(a) * fu):
+        return v.fail("constructor-error", f"Quantity({a['x']!r}+-{a['e']!r},{tu!r}) reports abse {q.abse()!r} {q.units()}: "
+                                           f"base error {_np(q.abse()) * R.factor_of_expression(q.units())!r}, expected {_err(a) * fu!r}")
     e0 = _np(q.abse())
     x0 = _np(q.value())
     f0 = R.factor_of_expression(q.units())
@@ -307,12 +322,45 @@ def check_qsum(case, v):
     v.label("qsum")
 
 
+def check_qprod(case, v):
+    from scinumtools.units import Quantity
+    tu, tv = R.render(case["u"]), R.render(case["v"])
+    fu, fv = _F(case["u"]), _F(case["v"])
+    if fu is None or fv is None:
+        return v.discard("float-range")
+    a, b, op = case["a"], case["b"], case["op"]
+    qa, qb = Quantity(_mk(a), tu), Quantity(_mk(b), tv)
+    Ba, Bb = _np(a["x"]) * fu, _np(b["x"]) * fv
+    ea = _err(a) * fu
+    eb = None if b["e"] is None else _err(b) * fv
+    r = qa * qb if op == "*" else qa / qb
+    txt = f"Quantity({a['x']!r}+-{a['e']!r},{tu!r}) {op} Quantity({b['x']!r}+-{b['e']!r},{tv!r})"
+    err = r.abse()
+    if err is None:
+        return v.fail("error-lost", f"{txt}: result has no error")
+    if not _nonneg(err):
+        return v.fail("negative-error", f"{txt}: error {err!r}")
+    ebase = _np(err) * R.factor_of_expression(r.units())
+    if eb is None:
+        exp = ea * np.abs(Bb) if op == "*" else ea / np.abs(Bb)
+        if not _eq(ebase, exp, 1e-10):
+            return v.fail("exact-factor", f"{txt}: base error {ebase!r} ({err!r} {r.units()}), expected {exp!r}")
+        v.label("qprod_exact")
+    elif np.all(Ba > 0) and np.all(Bb > 0):
+        bound = Ba * eb + Bb * ea if op == "*" else ea / Bb + Ba * eb / Bb ** 2
+        if not _ge(ebase, bound * (1 - 1e-10), Ba * Bb if op == "*" else Ba / Bb):
+            return v.fail("first-order", f"{txt}: base error {ebase!r} ({err!r} {r.units()}) < first-order bound {bound!r}")
+        v.label("qprod_first_order")
+    v.nt(fu != fv)
+    v.label("qprod")
+
+
 def check(case):
     v = Verdict()
     try:
         with np.errstate(all="ignore"):
             {"mag": check_mag, "exact": check_exact, "pow": check_pow, "rele": check_rele,
-             "conv": check_conv, "qsum": check_qsum}[case["kind"]](case, v)
+             "conv": check_conv, "qsum": check_qsum, "qprod": check_qprod}[case["kind"]](case, v)
     finally:
         if not R.tables_pristine():
             R.restore_tables()
